@@ -34,7 +34,7 @@ def bounds(tier):
 ZERO = num(0)
 
 
-def sites(arr_field):
+def sites(arr_field, alias_arr_field=None, inner=None):
     """name -> (required base type, builder)"""
     s = {
         'top': ('NUMBER', lambda R: ('bin', '>', R, ZERO)),
@@ -52,10 +52,29 @@ def sites(arr_field):
         'array-len': ('ARRAY', lambda R: ('bin', '>', ('call', 'len', (R,)), ZERO)),
         'array-domain': ('ARRAY', lambda R: ('quant', 'forall', 'i', R, ('bin', '>', ('var', 'i'), ZERO))),
     }
+    if inner is not None:
+        # the index sits on an inner accessor of a longer chain:  ms[R].f  /  mm[R][0]
+        s['inner-index-expression'] = ('NUMBER', lambda R: ('bin', '>', inner(R), ZERO))
+    if alias_arr_field is not None:
+        # an array of the aliased message indexed by a reference of the current one (and vice versa)
+        s['index-into-other-message'] = ('NUMBER', lambda R: ('bin', '>', ('index', alias_arr_field, R), ZERO))
     if arr_field is not None:
         s['index-expression'] = ('NUMBER', lambda R: ('bin', '>', ('index', arr_field, R), ZERO))
         s['index-arith'] = ('NUMBER', lambda R: ('bin', '>', ('index', arr_field, ('bin', '+', R, num(1))), ZERO))
     return s
+
+
+def inner_index_builder(sc, root):
+    """R |-> a chain of the schema in which R indexes an inner accessor."""
+    for node, t in schemas.paths(sc, root, 1):
+        if not isinstance(t, str) and t[0] == 'arr' and t[2] != 0 and not isinstance(t[1], str):
+            if t[1][0] == 'msg':
+                for k, v in t[1][1].items():
+                    if v == 'N':
+                        return lambda R, node=node, k=k: ('field', ('index', node, R), k)
+            elif t[1][0] == 'arr' and t[1][1] == 'N' and t[1][2] != 0:
+                return lambda R, node=node: ('index', ('index', node, R), num(0))
+    return None
 
 
 def first_numeric_array(sc, root):
@@ -104,6 +123,8 @@ POSITIONS = {
     'second-of-disjunction': ('globally: no (u or t { %s })', {'this': 't'}),
 }
 ALIAS_POSITIONS = {
+    'alias-from-disjunctive-trigger': 'globally: (s as A or u) causes t { %s }',
+    'alias-from-disjunctive-activator': 'after (u or s as A {x_o > 0}): no t { %s }',
     'alias-from-activator': 'after s as A: no t { %s }',
     'alias-from-trigger': 'globally: s as A causes t { %s }',
     'alias-in-terminator': 'after s as A until t { %s }: no u',
@@ -166,11 +187,14 @@ def _class(reason):
 
 def schema_cases(sname, tier):
     sc = schemas.FAMILY[sname]
+    asc = schemas.renamed(sc)
     depth = bounds(tier)['path_depth']
-    for rootname, root in (('this', ('this',)), ('alias', ('var', 'A'))):
+    for rootname, root, rsc in (('this', ('this',), sc), ('alias', ('var', 'A'), asc)):
+        # the array that is indexed belongs to the *other* message where possible
         arrf = first_numeric_array(sc, ('this',))
-        st = sites(arrf)
-        valid = list(schemas.paths(sc, root, depth))
+        alias_arr = first_numeric_array(asc, ('var', 'A'))
+        st = sites(arrf, alias_arr if rootname == 'this' else None, inner_index_builder(sc, ('this',)))
+        valid = list(schemas.paths(rsc, root, depth))
         extra = []
         for node, t in valid:
             extra += valid_extra(node, t)
@@ -185,9 +209,10 @@ def run_schema(sname, tier, r):
     problems = []
     sc = schemas.FAMILY[sname]
     tok = schemas.to_token(sc, 'M')
+    atok = schemas.to_token(schemas.renamed(sc), 'MA')
     other = schemas.to_token(schemas.FAMILY['flat'], 'O')
-    msg_types = {'t': tok, 's': tok, 'u': other}
-    root_types = {'this': sc, 'A': sc}
+    msg_types = {'t': tok, 's': atok, 'u': other}
+    root_types = {'this': sc, 'A': schemas.renamed(sc)}
     for rootname, path, t, st, why in schema_cases(sname, tier):
         for site_name, (site_type, build) in st.items():
             if t is not None:
@@ -202,12 +227,15 @@ def run_schema(sname, tier, r):
                 ptext = absyn.expr_text(term)
             except ValueError:
                 continue
-            if rootname == 'this':
+            if rootname == 'this' and site_name == 'index-into-other-message':
+                for pos, tmpl in ALIAS_POSITIONS.items():
+                    check_case(tmpl % ptext, msg_types, exp, path, (sname, site_name, pos, why or 'valid'), r, problems)
+            elif rootname == 'this':
                 poss = POSITIONS if site_name in ('top', 'index-expression', 'bool-top', 'array-in') else {'behaviour': POSITIONS['behaviour']}
                 for pos, (tmpl, _roots) in poss.items():
                     check_case(tmpl % ptext, msg_types, exp, path, (sname, site_name, pos, why or 'valid'), r, problems)
             else:
-                poss = ALIAS_POSITIONS if site_name in ('top', 'index-expression') else {'alias-from-activator': ALIAS_POSITIONS['alias-from-activator']}
+                poss = ALIAS_POSITIONS if site_name in ('top', 'index-expression', 'inner-index-expression') else {'alias-from-activator': ALIAS_POSITIONS['alias-from-activator']}
                 for pos, tmpl in poss.items():
                     check_case(tmpl % ptext, msg_types, exp, path, (sname, site_name, pos, why or 'valid'), r, problems)
     return problems
@@ -386,7 +414,7 @@ def replay(w):
 def describe(tier):
     b = bounds(tier)
     return {
-        'rule': f"schemas {list(b['schemas'])}: every valid accessor chain (depth <= {b['path_depth']}, rooted at the current message and at an alias; plus in-range literal indices) and every chain invalid in exactly one way (unknown field, field access on a primitive / array, index on a primitive / message, literal index = length and length + 1) placed at each of up to 16 nesting sites (top level, under not/and, arithmetic, range bound, set element, function argument, quantifier body, quantifier range domain, boolean and string sites, array sites: in / len / quantifier domain, index expression, arithmetic inside an index) - sites whose required type differs from the declared one give the type-mismatch cases - and at 5 property positions / 3 alias bindings; expectation from the independent resolver; the raised error must name the offending field, index or path. Plus leaf_fields / get_type_of / contains_name on every (nested) message of all 6 schemas, the 8 predefined integer tokens, and constructor grids (25 min/max pairs, 6 array lengths, 15 enumerated-value combinations, all 128 type sets for TypeToken).",
+        'rule': f"schemas {list(b['schemas'])}: every valid accessor chain (depth <= {b['path_depth']}, rooted at the current message and at an alias; plus in-range literal indices) and every chain invalid in exactly one way (unknown field, field access on a primitive / array, index on a primitive / message, literal index = length and length + 1) placed at each of up to 16 nesting sites (top level, under not/and, arithmetic, range bound, set element, function argument, quantifier body, quantifier range domain, boolean and string sites, array sites: in / len / quantifier domain, index expression, arithmetic inside an index, index on an inner accessor of a chain, an array of the other message indexed by this message's reference) - sites whose required type differs from the declared one give the type-mismatch cases - and at 5 property positions / 5 alias bindings (incl. aliases bound inside event disjunctions; the aliased message has a different message type); expectation from the independent resolver; the raised error must name the offending field, index or path. Plus leaf_fields / get_type_of / contains_name on every (nested) message of all 6 schemas, the 8 predefined integer tokens, and constructor grids (25 min/max pairs, 6 array lengths, 15 enumerated-value combinations, all 128 type sets for TypeToken).",
         'bounds': {'path_depth': b['path_depth'], 'schemas': len(b['schemas'])},
         'exhaustive': True,
         'assumptions': ['resolver and field-tree walk in hplmc/schemas.py are the reference'],
